@@ -517,12 +517,47 @@ fn flood_check(fl: &Flood, st: &mut Stats) -> Check {
     Ok(())
 }
 
+/// many VALIDATED flows: the table holds exactly one entry per flow (per distinct cookie: two
+/// tuples with equal 32-bit cookies share an entry, which is C08's listed finding)
+#[derive(Clone, Debug, Serialize, Deserialize, PartialEq)]
+pub struct Crowd {
+    pub scn: Scenario,
+    pub n: u32,
+    pub salt: u16,
+}
+
+fn crowd_check(c: &Crowd, st: &mut Stats) -> Check {
+    Sut::reset();
+    st.eval();
+    let sut = Sut::new(&c.scn.cfg);
+    let net = &c.scn.net;
+    let mut cookies = std::collections::HashSet::new();
+    for i in 0..c.n {
+        let f = Flow { net: net.clone(), sport: (i as u16) ^ c.salt, dport: 2000u16.wrapping_add((i >> 16) as u16) };
+        let k = learn_cookie(&sut, &f, i).map_err(Failure::new)?;
+        cookies.insert(k);
+        let o = sut.frame(&f.data(i.wrapping_add(1), k.wrapping_add(1), b"x"));
+        if let Out::Panic(p) = &o {
+            return Err(Failure::keyed(p.key(), format!("panic with {} connections: {} {}", i, p.file, p.msg)));
+        }
+        if i % 4096 == 0 || i + 1 == c.n || (i >= 65530 && i <= 65540) {
+            let l = Sut::tcb_len();
+            vensure!(l == cookies.len(), "after {} validated flows ({} distinct cookies) the connection table holds {} entries", i + 1, cookies.len(), l);
+        }
+    }
+    st.frames(2 * c.n as u64);
+    st.class("crowd-of-validated-flows");
+    st.nontrivial(&(c.n, c.salt));
+    st.sample(|| json!({"validated_flows": c.n, "distinct_cookies": cookies.len(), "table_len": Sut::tcb_len()}));
+    Ok(())
+}
+
 impl Prop for C09 {
     fn id(&self) -> &'static str {
         "C09"
     }
     fn rule(&self) -> &'static str {
-        "stateful: histories of 1..200 ops over 2..4 flows — SYN with all flag sets, data segments with wrong acknowledgement numbers (cookie, cookie+2, 0, 2^32-1, random, another flow's cookie+1, near misses cookie+1±d up to 70000), bare FIN|ACK / ACK / RST, UDP / ICMP / ARP / raw / lying-header noise, interleaved with a few valid data segments and repeated valid data on validated flows — plus floods of 10^4 (quick) / 10^5 (thorough) unvalidated frames from pseudo-random tuples next to one validated flow. Oracle: after EVERY frame the size of the connection table (hook verif_tcb_len) equals the number of flows that have sent a data segment acknowledging cookie+1 according to the reference model. Non-trivial = at least 20 unvalidated frames and at least one validated flow in the history; distinct by case hash."
+        "stateful: histories of 1..200 ops over 2..4 flows — SYN with all flag sets, data segments with wrong acknowledgement numbers (cookie, cookie+2, 0, 2^32-1, random, another flow's cookie+1, near misses cookie+1±d up to 70000), bare FIN|ACK / ACK / RST, UDP / ICMP / ARP / raw / lying-header noise, interleaved with a few valid data segments and repeated valid data on validated flows — plus floods of 10^4 (quick) / 10^5 (thorough) unvalidated frames from pseudo-random tuples next to one validated flow, and crowds of 70 000 (quick) / 200 000 (thorough) VALIDATED flows (table size = number of distinct cookies, checked every 4096 flows and around 65536). Oracle: after EVERY frame the size of the connection table (hook verif_tcb_len) equals the number of flows that have sent a data segment acknowledging cookie+1 according to the reference model. Non-trivial = at least 20 unvalidated frames and at least one validated flow in the history; distinct by case hash."
     }
     fn run(&self, ctx: &mut RunCtx) {
         let n = ctx.share(ctx.tier.n(40_000, 600_000));
@@ -531,11 +566,16 @@ impl Prop for C09 {
         let nf = ctx.share(ctx.tier.n(32, 160));
         let size = ctx.tier.n(10_000, 100_000) as u32;
         ctx.run_generated("flood", nf, (scenario_quiet(Fam::Any), Just(size), any::<u32>()).prop_map(|(scn, n, salt)| Flood { scn, n, salt }), flood_check);
+        // more validated flows than fit a 16-bit counter
+        let nc = ctx.share(ctx.tier.n(2, 32));
+        let csize = ctx.tier.n(70_000, 200_000) as u32;
+        ctx.run_generated("crowd", nc, (scenario_quiet(Fam::Any), Just(csize), any::<u16>()).prop_map(|(scn, n, salt)| Crowd { scn, n, salt }), crowd_check);
     }
     fn replay(&self, stream: &str, case: &Value, st: &mut Stats) -> Check {
         let bad = |e: serde_json::Error| Failure::new(format!("bad case: {}", e));
         match stream {
             "flood" => flood_check(&serde_json::from_value(case.clone()).map_err(bad)?, st),
+            "crowd" => crowd_check(&serde_json::from_value(case.clone()).map_err(bad)?, st),
             _ => run_case(&serde_json::from_value(case.clone()).map_err(bad)?, st, &Mode { check_replies: false, check_table: true }),
         }
     }
